@@ -14,6 +14,7 @@ from vlib import *
 CFG = """SPECIFICATION Spec
 CONSTANTS MAXLEN = %d
  MAXK = %d
+ MAXHIST = %d
 INVARIANT Inv
 CHECK_DEADLOCK FALSE
 """
@@ -91,6 +92,17 @@ def shadow_program(ctx, k):
     return t[ctx]
 
 
+def _same_pkg_redef(h):
+    """does some package see two DIFFERENT definitions of f in this history?"""
+    pkg, seen = "user", {}
+    for g in h:
+        if g in ("PA", "PB"):
+            pkg = "pa" if g == "PA" else "pb"
+        elif g in ("D1", "D2"):
+            seen.setdefault(pkg, set()).add(g)
+    return any(len(v) > 1 for v in seen.values())
+
+
 def run(tier):
     V = Verdict("C19", tier)
     work = Work("C19")
@@ -134,13 +146,15 @@ def _run(V, work, tier):
     V.coverage["registry_size"] = len(sigs)
     sigtext = "".join(json.dumps({k: s[k] for k in ("name", "kind", "req", "opt", "rest", "key")}) + "\n" for s in sigs)
     maxlen, maxk = (6, 9) if thorough else (5, 8)
-    res = run_tlc(work, "Bind", CFG % (maxlen, maxk), files={"sigs.ndjson": sigtext}, timeout=1200, workers=4)
+    maxhist = 4 if thorough else 3
+    res = run_tlc(work, "Bind", CFG % (maxlen, maxk, maxhist), files={"sigs.ndjson": sigtext}, timeout=1200, workers=4)
     V.tlc(res, "Bind: agreement theorem over all shapes of length <= %d x k <= %d and over the registry" % (maxlen, maxk))
     if res.violated:
         raise MachineryError("Bind agreement theorem fails inside the specification (design-level):\n" + res.raw[-2500:])
     pred = res.lines
     byname = {s["name"]: s for s in sigs}
     lintin, runin, meta = [], [], {}
+    hist = []
     n = 0
     for p in pred:
         if p["src"] == "shape":
@@ -164,6 +178,8 @@ def _run(V, work, tier):
                 lintin.append({"id": cid, "src": src})
                 runin.append({"id": cid, "src": src, "cfg": {"nostdlib": True, "maxsteps": 100000}})
                 meta[cid] = ("registry", p, mode, src)
+        elif p["src"] == "hist":
+            hist.append(p)
         else:
             cid = "h%d" % n
             n += 1
@@ -222,9 +238,58 @@ def _run(V, work, tier):
             lintin.append({"id": cid, "src": src})
             runin.append({"id": cid, "seq": [CFGPKG, src], "cfg": {"nostdlib": True}})
             meta[cid] = ("qual", {"k": -1, "head": head, "call": call}, "plain", src)
+    # definition histories (Bind.tla HOutcome / HExpect): the file is linted whole; the outcome of the call at position i
+    # is observed by loading the forms up to i without the earlier calls the specification says fail
+    HTEXT = {"D1": "(defun f (a) a)", "D2": "(defun f (a b) a)", "C1": "(f 1)", "C2": "(f 1 2)", "PA": "(in-package 'pa)", "PB": "(in-package 'pb)",
+             "BP": "(defun g (car) car)", "B0": "(car)", "B1": "(car '(1))"}
+    hmeta = {}
+    for p in hist:
+        cid = "H%d" % n
+        n += 1
+        forms = p["h"]
+        src = "\n".join(HTEXT[f] for f in forms)
+        lintin.append({"id": cid, "src": src})
+        hmeta[cid] = (p, src)
+        for i, f in enumerate(forms):
+            if p["out"][i] == "-":
+                continue
+            pre = [HTEXT[g] for j, g in enumerate(forms[:i]) if p["out"][j] in ("-", "ok")]
+            runin.append({"id": "%s@%d" % (cid, i), "src": "\n".join(pre + [HTEXT[f]]), "cfg": {"nostdlib": True}})
     lints = {r["id"]: r for r in driver_json(binary, ["lint"], lintin)}
     runs = {r["id"]: r["runs"][0]["evals"][-1] for r in driver_json(binary, ["run"], [dict(r, seq=r.get("seq") or [r["src"]]) for r in runin])}
-    cnt = {"shape": 0, "registry": 0, "shadow": 0, "place": 0, "qual": 0, "noncall": 0}
+    cnt = {"shape": 0, "registry": 0, "shadow": 0, "place": 0, "qual": 0, "noncall": 0, "history": 0, "history_calls": 0, "history_blind_positions": 0}
+    for cid, (p, src) in hmeta.items():
+        cnt["history"] += 1
+        L = lints[cid]
+        if L.get("err"):
+            raise MachineryError("lint could not parse a generated history: %s\n%s" % (L["err"], src))
+        diags = [d for d in (L.get("diags") or []) if d["analyzer"] in ("builtin-arity", "user-arity", "if-arity")]
+        for i, f in enumerate(p["h"]):
+            want = p["out"][i]
+            if want == "-":
+                continue
+            cnt["history_calls"] += 1
+            ev = runs["%s@%d" % (cid, i)]
+            msg = (ev.get("err") or {}).get("msg", "") if ev["v"]["t"] == "err" else ""
+            real = "ok" if ev["v"]["t"] != "err" else "arity" if "invalid number of arguments" in msg else "unbound" if "unbound symbol" in msg else "other:" + msg
+            tag = "form %d %s of the file %s" % (i + 1, HTEXT[f], " ".join(HTEXT[g] for g in p["h"]))
+            if real != want:
+                V.add(None, "definition history: the evaluator differs from the specification (%s): real %s, specification %s" % (tag, real, want), {"src": src, "position": i, "real": real, "expected": want})
+                continue
+            head = "car" if f in ("B0", "B1") else "f"
+            reported = any(d["line"] == i + 1 and d["msg"].startswith(head + " ") for d in diags)
+            exp = p["expect"][i]
+            if p["blind"][i] != (exp == "must") and exp != "may":
+                cnt["history_blind_positions"] += 1
+            # the finding is named by the situation, not by the program: which earlier / later forms make a history-blind
+            # summary wrong at this position (Bind.tla FlowBlind)
+            # a finding is named by the SITUATION (which other forms of the file make a history-blind summary wrong at
+            # this position, Bind.tla FlowBlind); where the history-blind summary is right, a wrong answer has no name
+            why = "param-elsewhere" if f == "B0" else "redefined-later" if _same_pkg_redef(p["h"]) else "another-package"
+            if exp == "must" and not reported:
+                V.add(("history-unchecked:" + why) if not p["blind"][i] else None, "lint accepts a call that fails with invalid number of arguments (%s)" % tag, {"src": src, "position": i, "diags": diags})
+            if exp == "mustnot" and reported:
+                V.add(("history-overchecked:" + why) if p["blind"][i] else None, "lint reports a call that binds at run time (%s)" % tag, {"src": src, "position": i, "diags": diags})
     for cid, (kind, p, mode, src) in meta.items():
         cnt[kind] += 1
         L = lints[cid]
@@ -296,5 +361,5 @@ def _run(V, work, tier):
     V.coverage["cases"] = cnt
     V.coverage["traces_validated_against_impl"] = len(meta)
     V.coverage["exhaustive"] = True
-    V.coverage["explanation"] = "every well-formed shape of <= %d names x k <= %d; every registry name x k in 0..max+2; 17 shadowing contexts x k in 0..3" % (maxlen, maxk)
+    V.coverage["explanation"] = "every well-formed shape of <= %d names x k <= %d; every registry name x k in 0..max+2; 17 shadowing contexts x k in 0..3; every file of <= %d top-level forms over two definitions of one name, its calls, two package switches, a builtin-named parameter elsewhere and direct builtin calls" % (maxlen, maxk, maxhist)
     return V.finish()
